@@ -222,12 +222,40 @@ def oracle(history, steps):
     return fails
 
 
+UPDATER_OPS = ('$set', '$unset', '$inc', '$min', '$max', '$pop', '$currentDate', '$setOnInsert')
+
+
+def skips_component(doc, parts):
+    """the path meets an array with a component that is no index: `_update_document_single_field`
+    drops that component and goes on with the next one"""
+    cur = doc
+    for p in parts:
+        if isinstance(cur, dict):
+            if p not in cur:
+                return False
+            cur = cur[p]
+        elif isinstance(cur, list):
+            if not p.isdigit():
+                return True
+            if int(p) >= len(cur):
+                return False
+            cur = cur[int(p)]
+        else:
+            return False
+    return False
+
+
 def classify(spec, doc):
-    """which known deviation class (if any) an operator-result mismatch falls in.  The only class
-    left is `boolnum`; $pullAll on a missing path, duplicates inside $addToSet.$each, $min/$max on
-    an array element and $pull with a path into an array are repaired and no longer excused."""
+    """which known deviation class (if any) an operator-result mismatch falls in: `boolnum`, and
+    `nonnumeric-component-skipped` (a path component that is no index is dropped when it meets an
+    array); $pullAll on a missing path, duplicates inside $addToSet.$each, $min/$max on an array
+    element and $pull with a path into an array are repaired and no longer excused."""
     if not isinstance(spec, dict):
         return None
+    for op in UPDATER_OPS:
+        b0 = spec.get(op)
+        if isinstance(b0, dict) and any(skips_component(doc, str(p).split('.')) for p in b0):
+            return 'nonnumeric-component-skipped'
     body = spec.get('$addToSet')
     if isinstance(body, dict):
         for p, arg in body.items():
